@@ -30,10 +30,11 @@ def mc_cfg(max_depth, rich, tagdefs, extras, indents='IndentsAll', invs=MC_INVS,
 
 TIERS = {
     # bfs: (MaxDepth, Rich, TagDefs, Extras);  sim: (num, depth, TagDefs)
-    'dev': {'bfs': [(0, False, [], True)], 'sim': None, 'rand': 4, 'numerics': '0'},
-    'quick': {'bfs': [(1, False, ['E'], True)], 'sim': ('num=25', 3, ['A']), 'rand': 30, 'numerics': '0'},
-    'thorough': {'bfs': [(2, False, ['E'], True), (1, True, ['A'], False)], 'sim': ('num=600', 6, ['E', 'A']),
-                 'rand': 400, 'numerics': '0,1'},
+    # simcap: at most this many simulated cases are kept (seeded sample)
+    'dev': {'bfs': [(0, False, [], True)], 'sim': None, 'simcap': 0, 'rand': 4, 'numerics': '0'},
+    'quick': {'bfs': [(1, False, ['E'], True)], 'sim': ('num=8', 3, ['A']), 'simcap': 150, 'rand': 30, 'numerics': '0'},
+    'thorough': {'bfs': [(2, False, ['E'], True), (1, True, ['A'], False)], 'sim': ('num=120', 6, ['E', 'A']),
+                 'simcap': 2500, 'rand': 400, 'numerics': '0,1'},
 }
 
 
@@ -42,17 +43,22 @@ def generate_cases(run, tier):
     t = TIERS[tier]
     cases = []
     for n, (d, rich, tds, extras) in enumerate(t['bfs']):
-        out, res = pl.tlc_generate(run, 'MC_Gser', mc_cfg(d, rich, tds, extras), 'gen%d.ndjson' % n, workers=8,
+        out, res = pl.tlc_generate(run, 'MC_Gser', mc_cfg(d, rich, tds, extras), 'gen%d.ndjson' % n, workers=max(1, min(8, pl.NPROC // 2)),
                                    timeout=3000,
                                    what='MC_Gser BFS depth<=%d rich=%s tagdefs=%s extras=%s: RoundTrip, Injective' % (
                                        d, rich, tds, extras))
         cases += pl.dedup_cases(out, 'g%d' % n)
     if t['sim']:
         num, depth, tds = t['sim']
-        out, res = pl.tlc_generate(run, 'MC_Gser', mc_cfg(depth, True, tds, False, invs=['MEmit', 'RoundTrip']),
+        # deep nestings: simulation only emits (every successor of every visited state); the model-level
+        # invariants are checked on the BFS universe, the implementation is checked on both
+        out, res = pl.tlc_generate(run, 'MC_Gser', mc_cfg(depth, True, tds, False, invs=['MEmit']),
                                    'gensim.ndjson', workers=1, simulate=num, depth=depth + 1, timeout=3000,
-                                   what='MC_Gser simulate %s depth %d: RoundTrip' % (num, depth))
-        cases += pl.dedup_cases(out, 's')
+                                   what='MC_Gser simulate %s depth %d (emit only)' % (num, depth))
+        sim = sorted(pl.dedup_cases(out, 's'), key=lambda c: c['cid'])
+        if len(sim) > t['simcap']:
+            sim = random.Random(run.seed).sample(sim, t['simcap'])
+        cases += sim
     seen, uniq = set(), []
     for c in cases:
         h = hashlib.sha1(json.dumps([c['env']['types'], c['vals']], sort_keys=True).encode()).hexdigest()
@@ -148,11 +154,14 @@ def witness_cases(prop):
 TRACE_CFG = 'SPECIFICATION Spec\nPOSTCONDITION TraceAccepted\nCHECK_DEADLOCK FALSE\n'
 
 
-def c20(tier, seed):
+def c20(tier, seed, replay_cases=None):
     run = pl.Run('C20', tier, seed)
     try:
         t = TIERS[tier]
-        cases = generate_cases(run, tier) + random_cases(seed, t['rand']) + witness_cases('C20')
+        if replay_cases is not None:
+            cases = replay_cases
+        else:
+            cases = generate_cases(run, tier) + random_cases(seed, t['rand']) + witness_cases('C20')
         cpath = run.path('cases.ndjson')
         pl.write_cases(cases, cpath)
         batch = max(2, min(40, len(cases) // (2 * pl.NPROC) or 2))
@@ -194,3 +203,12 @@ def c20(tier, seed):
     except pl.Machinery as e:
         print('MACHINERY FAILURE C20: %s' % e)
         return 2
+
+
+def c20_replay(path, seed):
+    """Re-execute exactly the case of a replay file written by pipeline.finish (all its values, all layouts)."""
+    with open(path) as f:
+        rp = json.load(f)
+    c = rp['case']
+    case = {'cid': c['cid'], 'env': c['env'], 'top': c['top'], 'vals': c['vals'], 'depth': 0}
+    return c20('dev', seed, replay_cases=[case])
